@@ -496,6 +496,20 @@ fn dataset_for(pool: &[T], mu: &[Option<usize>; 4]) -> (LightDataset, String) {
     for v in 0..3 { if let Some(i) = mu[v] { d.insert(&iri("tag:s"), &iri(&format!("tag:p{}", VARS[v])), &pool[i].to_st(), None::<&ST>).unwrap(); bgp.push_str(&format!("<tag:s> <tag:p{0}> ?{0} . ", VARS[v])); } }
     (d, bgp)
 }
+/// ONE spelling per term within one case's dataset.  The in-memory store keeps a single entry for terms that are equal under
+/// Term::eq -- language tags compare without case -- spelled as first inserted; binding "b"@En and "b"@en to two variables
+/// would make the engine answer "b"@En for both, which is no defect (the property speaks of RDF terms), while the model and
+/// the oracle are handed the two spellings.  So a binding whose term equals an earlier term of the same dataset up to the
+/// case of language tags (also inside quoted triples) is replaced by that earlier pool entry.  `seen` lists the pool entries
+/// already in the dataset, in insertion order.  No random draw is consumed: no case changes but those with such a pair.
+fn one_spelling(pool: &[T], seen: &mut Vec<usize>, i: usize) -> usize {
+    let c = seen.iter().copied().find(|j| pool[*j].same(&pool[i])).unwrap_or(i);
+    seen.push(c);
+    c
+}
+fn one_spelling_mu(pool: &[T], seen: &mut Vec<usize>, mu: &mut [Option<usize>; 4], from: usize) {
+    for v in from..3 { if let Some(i) = mu[v] { mu[v] = Some(one_spelling(pool, seen, i)); } }
+}
 fn eval_engine(pool: &[T], mu: &[Option<usize>; 4], text: &str) -> (Obs, Obs, String) {
     let (d, bgp) = dataset_for(pool, mu);
     let q1 = format!("SELECT ?r {{ {bgp} BIND({text} AS ?r) }}");
@@ -947,6 +961,9 @@ fn main() {
                 })
             },
         } };
+        let mu_drawn = mu;
+        one_spelling_mu(&pool_t, &mut vec![], &mut mu, 0);
+        if mu != mu_drawn { sum.bump("dataset:two-spellings-of-one-literal-drawn (one kept)") }
         let mut pr = g.r.fork(77);
         let text = e.sparql(&pool_t, &mut pr);
         let (o1, o2, q1) = eval_engine(&pool_t, &mu, &text);
@@ -1198,7 +1215,14 @@ fn main() {
         } };
         let mut pr = g.g.r.fork(77);
         let text = e.sparql(&pool_t, &mut pr);
-        let mu = g.mu;
+        // one spelling per term in the dataset: the rows of the multi-row stream first (they are inserted first), then ?b ?c
+        let mut mu = g.mu;
+        let drawn = (mu, rows.clone());
+        match rows.as_mut() {
+            Some(ts) => { let mut seen = vec![]; for t in ts.iter_mut() { *t = one_spelling(&pool_t, &mut seen, *t) } mu[0] = Some(ts[0]); one_spelling_mu(&pool_t, &mut seen, &mut mu, 1) }
+            None => one_spelling_mu(&pool_t, &mut vec![], &mut mu, 0),
+        }
+        if drawn != (mu, rows.clone()) { sum.bump("dataset:two-spellings-of-one-literal-drawn (one kept)") }
         let mut called = vec![]; e.calls(&mut called);
         let unimpl: Option<Fu> = called.iter().copied().find(|f| UNIMPLEMENTED.contains(f));
         sum.evaluations += 1;
